@@ -9,7 +9,7 @@ From Verif Require Import c05.Proofs_LimiterMon c05.Proofs_WorkerMon c05.Proofs_
 From Verif Require Import c05.ModelSync c05.SpecSync c05.Proofs_Sync c05.SpecDialPeer.
 From Verif Require Import c05.ModelComposite c05.SpecComposite c05.Proofs_Composite c05.Proofs_Composite2 c05.Proofs_Composite3.
 From Verif Require Import c05.Proofs_Composite4 c05.Proofs_Composite5 c05.Proofs_Composite6 c05.Proofs_CompositeMon.
-From Verif Require Import c05.Proofs_CompositeHI c05.Proofs_CompositeMon5 c05.Proofs_CompositeQ c05.Proofs_CompositeMon6.
+From Verif Require Import c05.Proofs_CompositeHI c05.Proofs_CompositeMon5 c05.Proofs_CompositeQ c05.Proofs_CompositeMon6 c05.Proofs_CompositeMon8.
 Import ListNotations.
 Local Open Scope Z_scope.
 
@@ -307,28 +307,26 @@ Theorem c05_composite_drain_quiescent : forall fdl ppl es, QI fdl ppl es -> Quie
 Proof. exact drain_quiet. Qed.
 Print Assumptions c05_composite_drain_quiescent.
 
-(* HEADLINE (composite): the DialPeer monitor that judges the implementation's traces, run on
-   the trace of the composite model under the harness-level semantics (SpecComposite: one
-   stimulus, then every enabled step until nothing moves) for EVERY sequence of stimuli with
-   fresh caller ids and repetition-free rankings and limits >= 1, never reports clause 1 (a
-   return is of a caller inside, at most once, never of another peer, with a connection only
-   after some dial produced one), 2 (a cancelled caller is released in the same step with its
-   context error), 3 (while any caller waits each address is handed to a transport at most
-   once), 4 (caps), 5 (cancelling one caller ends no dial of the others), 6 (once all callers
-   have returned nothing is left: no dial, no token, no active dial, no goroutine) or 7 (the
-   count of callers inside).
-   _partial, exactly what remains: clause 9 (after more virtual time than any ranking delay a
-   caller still waits only while some dial is in progress).  Missing lemma: after an advance of
-   at least 2 s the dial queue of the live worker is empty (advance_to fires every due timer;
-   needs ranking delays below 2 s in the well-formedness of stimuli), so that quiescence and
-   c05_response_at_least_once_at_quiescence leave a waiting caller only with a dial in
-   flight; the state-level counterpart for every schedule is c05_composite_no_lost_job. *)
-Theorem c05_composite_monitor_accepts_partial : forall fdl ppl fds xs, 1 <= fdl -> 1 <= ppl ->
-  wf_kstims2 (init_denv, init_c fdl ppl fds) xs ->
-  forall d, monitor_d fdl ppl (mkDmon [] [] [] false false) 0 (ctrace (init_denv, init_c fdl ppl fds) xs) = d ->
-  d = [] \/ exists j, d = [ERR_PROPERTY; j; 9].
-Proof. exact monitor_d_accepts_9_l. Qed.
-Print Assumptions c05_composite_monitor_accepts_partial.
+(* HEADLINE (composite): the DialPeer monitor that judges the implementation's traces
+   (SpecDialPeer.monitor_d), run on the trace of the composite model under the harness-level
+   semantics (SpecComposite: one stimulus, then every enabled step until nothing moves), ACCEPTS,
+   for EVERY sequence of stimuli with fresh caller ids, repetition-free rankings whose delays are
+   in [0, 2 s), non-negative clock advances (SpecDialPeer.wf_stims_b, which the driver also
+   evaluates on every recorded case before judging it), and limits >= 1.  It never reports
+   clause 1 (a return is of a caller inside, at most once, never of another peer, with a
+   connection only after some dial produced one), 2 (a cancelled caller is released in the
+   same step with its context error), 3 (while any caller waits each address is handed to a
+   transport at most once), 4 (caps), 5 (cancelling one caller ends no dial of the others),
+   6 (once all callers have returned nothing is left: no dial, no token, no active dial, no
+   goroutine), 7 (the count of callers inside) or 9 (after 2 s of virtual time a caller still
+   waits only while some transport dial is in progress, unless a worker is parked in the
+   gater).  Clause 8 of monitor_d_case (the case ends with every caller returned) is about how
+   the harness ends a case, not about the model. *)
+Theorem c05_composite_monitor_accepts : forall fdl ppl fds xs, 1 <= fdl -> 1 <= ppl ->
+  wf_stims_b [] xs = true ->
+  monitor_d fdl ppl (mkDmon [] [] [] false false) 0 (ctrace (init_denv, init_c fdl ppl fds) xs) = [].
+Proof. exact monitor_d_accepts_b. Qed.
+Print Assumptions c05_composite_monitor_accepts.
 
 (* ---- non-vacuity ----------------------------------------------------------------- *)
 (* the history of the repaired defect reaches a state with a queued live job and
@@ -419,3 +417,18 @@ Example composite_stale_exit_old_vs_new :
   in_limiter (c_lim (reach 4 1 [1; 2] stale_exit_schedule)) 6 = true.
 Proof. exact stale_exit_old_vs_new. Qed.
 
+
+(* the hypothesis of the composite headline is satisfiable by a scenario in which things happen:
+   two callers share the dial to address 1; it fails, so caller 2 (who had no other candidate)
+   returns with an error and address 2 is dialed for caller 1; that dial succeeds and caller 1
+   returns with the connection.  The monitor accepts the model's trace. *)
+Example composite_headline_nonvacuous :
+  let xs := [KCall 1 false false (Some [(1, 0); (2, 250000000)]); KCall 2 false false (Some [(1, 0)]);
+             KAdvance 3000000000; KRes 1 0 false; KCancel 2; KRes 2 1 false; KAdvance 2000000000] in
+  let tr := ctrace (init_denv, init_c 1 1 [1; 2]) xs in
+  wf_stims_b [] xs = true /\
+  map (fun xo => (d_rets (snd xo), d_starts (snd xo), d_ends (snd xo), d_inpeer (snd xo), d_waiting (snd xo))) tr =
+    [([], [1], [], 1, 1); ([], [], [], 1, 2); ([], [], [], 1, 2); ([(2, 1)], [2], [1], 1, 1);
+     ([], [], [], 1, 1); ([(1, 0)], [], [2], 0, 0); ([], [], [], 0, 0)] /\
+  monitor_d 1 1 (mkDmon [] [] [] false false) 0 tr = [].
+Proof. vm_compute. repeat split. Qed.
